@@ -11,10 +11,13 @@
    `pstep`) come from the Spec file.
    Regenerated from the source on every run and used here: the exception class raised by the
    bytes[]/string[] arm of vm_assert_binary (Gen/GenAssertArms.v), halmos' exception hierarchy
-   (Gen/GenExcHierarchy.v) and the except clauses of SEVM.run (Gen/GenRunExcepts.v).
+   (Gen/GenExcHierarchy.v), the except clauses of SEVM.run (Gen/GenRunExcepts.v) and the decision
+   part of SEVM.jumpi (Gen/GenJumpi.v: which sides of a branch are followed, given the two
+   solver answers).
    No proofs here. *)
 From Coq Require Import ZArith List Bool String Ascii.
-From HV Require Import Base.SmtBV Spec.AssertSpec Gen.GenAssertArms Gen.GenExcHierarchy Gen.GenRunExcepts.
+From HV Require Import Base.SmtBV Spec.AssertSpec Gen.GenAssertArms Gen.GenExcHierarchy Gen.GenRunExcepts
+  Gen.GenJumpi.
 Import ListNotations.
 Open Scope list_scope.
 Open Scope Z_scope.
@@ -284,6 +287,8 @@ Section Branching.
   Variable check : path -> cond -> sat_result.
   (* is_false(simplify(c)): c is literally the constant false *)
   Variable lit_false : cond -> bool.
+  (* options.loop: how often one side of one JUMPI may be taken on a path *)
+  Variable loop : Z.
 
   (* call tree of the transaction, as far as failure reporting goes.  EStuck = the context was
      halted with output data None and a HalmosException (CallContext.is_stuck) *)
@@ -335,16 +340,28 @@ Section Branching.
     | parent :: rest => mkExec (ex_path e) (add_sub parent top :: rest)
     end.
 
-  (* one cheatcode call, as SEVM.run sees it *)
+  (* SEVM.jumpi on a condition c, first visit of this JUMPI on the path: ex.check(c) and
+     ex.check(not c) -- the SAME oracle the assert branch consults -- decide (jumpi_decide,
+     regenerated) which sides are followed; a followed side gets its condition appended
+     (create_branch / path.append) and both sides go on with the same code (they rejoin) *)
+  Definition sat_code (r : sat_result) : Z := match r with Unsat => 0 | Sat => 1 | Unknown => 2 end.
+  Definition jumpi_step (e : exec) (c : cond) : list outcome :=
+    let d := jumpi_decide (sat_code (check (ex_path e) c)) (sat_code (check (ex_path e) (cnot c))) 0 0 loop in
+    (if d_follow_true d then [Continues (mkExec (ex_path e ++ [c]) (ex_frames e))] else [])
+    ++ (if d_follow_false d then [Continues (mkExec (ex_path e ++ [cnot c]) (ex_frames e))] else []).
+
+  (* one step of the frame, as SEVM.run sees it: a cheatcode call, or a two-way branch *)
   Inductive cheat :=
     | KAssert (c : cond)       (* the handler returned VmAssertion(c, _) *)
     | KAssume (c : cond)
+    | KBranch (c : cond)       (* JUMPI on c, both sides rejoin *)
     | KRaise (cls : string).   (* the handler raised an exception of class cls *)
   (* None = the exception escapes SEVM.run *)
   Definition cheat_step (e : exec) (k : cheat) : option (list outcome) :=
     match k with
     | KAssert c => Some (assert_step e c)
     | KAssume c => Some (assume_step e c)
+    | KBranch c => Some (jumpi_step e c)
     | KRaise cls =>
       match catch_action cls with
       | Some ADrop => Some []
@@ -376,7 +393,10 @@ Section Branching.
     end.
   (* the Foundry step a cheatcode call stands for *)
   Definition pstep_of (k : cheat) : pstep Input :=
-    match k with KAssert c => PAssert Input c | KAssume c => PAssume Input c | KRaise _ => PUnsupported Input end.
+    match k with
+    | KAssert c => PAssert Input c | KAssume c => PAssume Input c | KBranch c => PBranch Input c
+    | KRaise _ => PUnsupported Input
+    end.
 
   (* what run_test does with a yielded state: the failure flag is looked at first (a
      counterexample query), then is_stuck (reported as a stuck path: the test does not pass) *)
